@@ -38,7 +38,7 @@ class Rule:
     def from_spec(cls, spec):
         path = DataPath.from_part_specs(*spec["path"])
         cond = ConditionLike.from_spec(spec["condition"])
-        doc = spec.get("doc")
+        doc = copy.deepcopy(spec.get("doc"))  # normalised in-place below
 
         if doc:
             if not isinstance(doc, dict):
@@ -48,7 +48,7 @@ class Rule:
                 if isinstance(doc, list):
                     doc = {"description": doc, "examples": []}
 
-            elif isinstance(doc["description"], str):
+            elif isinstance(doc.get("description"), str):
                 doc["description"] = [doc["description"]]
 
             if "description" not in doc:
@@ -63,7 +63,7 @@ class Rule:
             for idx, ex_i in enumerate(doc["examples"]):
                 doc["examples"][idx] = ex_i.strip()
 
-        cast = spec.get("cast")
+        cast = copy.copy(spec.get("cast"))  # re-keyed in-place below
         for cast_from in list((cast or {}).keys()):
             cast_to = cast.pop(cast_from)
             try:
